@@ -94,7 +94,12 @@ def gen_tables():
     p = sh([exe, "-tables", REPO], timeout=120, check=False)
     if p.returncode != 0:
         raise BuildError("table extraction", p.stdout)
-    return write_if_changed(os.path.join(COQ, "gen", "Tables.v"), p.stdout)
+    ch = write_if_changed(os.path.join(COQ, "gen", "Tables.v"), p.stdout)
+    p = sh([exe, "-footprint", REPO], timeout=300, check=False, env=GOENV)
+    if p.returncode != 0:
+        raise BuildError("footprint extraction", p.stdout)
+    ch2 = write_if_changed(os.path.join(COQ, "gen", "Footprint.v"), p.stdout)
+    return ch or ch2
 
 
 def coq_files():
